@@ -202,7 +202,13 @@ func mGenFlow(rng *rand.Rand, canonical bool, maxWidth int) *mFlow {
 			e.Hi = e.Lo
 		default:
 			w := 1 + rng.Intn(maxWidth)
-			lo := rng.Intn(65536 - w)
+			lo := rng.Intn(65536 - w + 1)
+			switch rng.Intn(8) {
+			case 0: // anchored at the top of the port space
+				lo = 65536 - w
+			case 1: // anchored at the bottom
+				lo = 0
+			}
 			e.Lo, e.Hi = uint16(lo), uint16(lo+w-1)
 			if e.Lo == 0 && e.Hi == 0 {
 				e.Lo, e.Hi = 1, 1
